@@ -57,6 +57,9 @@ THEOREMS = [
     'C14.sizesOf_mult', 'C14.sfNew_built', 'C14.sfStep_built', 'C14.sfRun_built', 'C14.stored_system_same_crystal',
     # vacuum and relative coordinates (tilted cut vector)
     'C14.cartToRel_z_of_flat', 'C14.vacuum_rel_cut_c', 'C14.vacuum_rel_cut_bounds', 'C14.vacuum_inplane_c',
+    # counts and smallest sizes: the iterfaultmap mesh for every pair of counts, the one-layer rotated cell
+    'C14.faultMesh_length', 'C14.mem_faultMesh', 'C14.faultMesh_unit', 'C14.faultMesh_nodup', 'C14.iterFaultMap_mesh',
+    'C14.iterFaultMap_length', 'C14.shifts_single_layer', 'C14.single_layer_centered',
 ]
 PARTIAL = {
     'isclose_as_exact_zero': 'np.isclose(x, 0) / np.isclose(mag, b_mag) / the arccos-based angle comparisons are modelled '
@@ -117,7 +120,13 @@ RULE = ('free_surface_basis: every plane |h|,|k|,|l| <= N (N=4 quick, 7 thorough
         'fault() before any build). Every call is chosen after looking at the real object, mirrored on the Lean object, '
         'and followed by a comparison of every attribute; in the search every call is judged by a specification-level '
         'shadow of the final arguments, a fresh object given the same final arguments (bitwise equal reads), and the '
-        'clause oracle on every returned fault configuration.')
+        'clause oracle on every returned fault configuration. Counts / sizes: a third of all cases use generated one- and '
+        'two-atom cells (atoms at arbitrary fractional positions, seven families incl. b == c; two atoms in one layer); '
+        'decimal lattice constants x high-index planes and planes with rational interplanar spacing ({221} {340} {236} '
+        '{148} {447}); every offered shift judged on the rotated cell; iterfaultmap counts 0..60 and the float-division '
+        'trap counts (thorough: all, quick: a fifth + two, rotating with the seed); systems of exactly 2^k - 1, 2^k, 2^k + 1 '
+        'atoms (k = 10..13, 16); minwidth as exact multiples of the cell width; even as True / 1 / numpy.True_; the same '
+        'fault request repeated later in a history; returned configurations scribbled over.')
 ASSUMPTIONS = [
     'np.isclose(x, 0.0) is x = 0, np.isclose(mag, b_mag) is equality of lengths, and the comparisons of norms / '
     'arccos angles are the exact comparisons of squared lengths / cross-multiplied squared cosines (order-equivalent '
@@ -694,9 +703,144 @@ def crystal_list(a, c, exact):
     return out
 
 
+# generated one- and two-atom cells: the atoms sit at ARBITRARY fractional positions (not at the origin), in cells of
+# several families incl. equal lattice constants in unusual slots (orthorhombic box with b == c).  The whole cell is
+# encoded in the name, 'g<natoms>:<family>:<x,y,z,type>;<x,y,z,type>', so that (name, a, c, exact) rebuilds it.
+GEN_FAMILIES = ('cub', 'tet', 'ort', 'obc', 'hex', 'mon', 'tri')
+_FRACS = [0.0, 0.125, 0.25, 0.375, 0.5, 0.625, 0.75, 0.875, 1 / 3, 2 / 3, 1 / 6, 5 / 6, 0.1, 0.3, 0.7]
+
+
+def gen_box(fam, a, c, exact):
+    import atomman as am
+    b = a * 1.25 if exact else a * 1.21
+    if fam == 'cub':
+        return am.Box.cubic(a)
+    if fam == 'tet':
+        return am.Box.tetragonal(a, c)
+    if fam == 'ort':
+        return am.Box.orthorhombic(a, b, c)
+    if fam == 'obc':
+        return am.Box.orthorhombic(a, c, c)            # b == c
+    if fam == 'hex':
+        return am.Box.hexagonal(a, c)
+    if fam == 'mon':
+        return am.Box(vects=[[a, 0, 0], [0, b, 0], [-a / 4, 0, c]])
+    if fam == 'tri':
+        return am.Box(vects=[[a, 0, 0], [a / 4, b, 0], [-a / 4, b / 8, c]])
+    raise KeyError(fam)
+
+
+def gen_crystal_name(rng, natoms, fam=None, share=None):
+    """name of a generated cell; `share`: the two atoms of a two-atom cell have the same coordinate along one axis
+    (None: in 40% of the cells)."""
+    fam = fam or rng.choice(GEN_FAMILIES)
+
+    def coord():
+        r = rng.random()
+        if r < 0.3:
+            return 0.5
+        if r < 0.8:
+            return rng.choice(_FRACS)
+        return round(rng.uniform(0.02, 0.98), 4)
+    pts = [[coord(), coord(), coord()] for _ in range(natoms)]
+    if natoms == 2:
+        if share or (share is None and rng.random() < 0.4):   # both atoms in one layer of a low-index plane
+            k = rng.randrange(3)
+            pts[1][k] = pts[0][k]
+        if pts[0] == pts[1]:
+            pts[1][rng.randrange(3)] = (pts[0][0] + 0.5) % 1.0
+    types = [1] * natoms if rng.random() < 0.5 else list(range(1, natoms + 1))
+    return 'g%d:%s:%s' % (natoms, fam, ';'.join(','.join(repr(float(x)) for x in p) + ',%d' % t for p, t in zip(pts, types)))
+
+
+def _is_hex(nm):
+    return nm == 'hcp' or nm.split(':')[1:2] == ['hex']
+
+
+def shared_axis(nm):
+    """axis along which all atoms of a generated cell have the same fractional coordinate (one layer of that
+    low-index plane), else None."""
+    if not nm.startswith('g'):
+        return None
+    rows = [[float(x) for x in p.split(',')[:3]] for p in nm.split(':')[2].split(';')]
+    ks = [k for k in range(3) if len({r[k] for r in rows}) == 1]
+    return ks[0] if ks else None
+
+
+def layer_plane(rng, nm, hkl):
+    """for a generated cell whose atoms share a coordinate: mostly the plane in which they all lie."""
+    k = shared_axis(nm)
+    if k is None or rng.random() >= 0.6:
+        return hkl
+    h = [0, 0, 0]
+    h[k] = rng.choice([1, 1, -1, 2])
+    return tuple(h)
+
+
+def _kind(nm):
+    """crystal name -> statistics bucket."""
+    return ':'.join(nm.split(':')[:2])
+
+
+def crystal_get(nm, a, c, exact):
+    """(ucell, conventional_setting) for a crystal name."""
+    if nm.startswith('g'):
+        _, fam, motif = nm.split(':')
+        rows = [[float(x) for x in p.split(',')] for p in motif.split(';')]
+        atype = [int(r[3]) for r in rows]
+        return _system(gen_box(fam, a, c, exact), [r[:3] for r in rows], atype=atype,
+                       symbols=['A', 'B'][:max(atype)]), 'p'
+    return [(u, s_) for k, u, s_ in crystal_list(a, c, exact) if k == nm][0]
+
+
+TRAP_COUNTS = [49, 98, 103, 107, 196, 197, 161, 187, 206, 214]
+NAMES = ['fcc', 'bcc', 'diamond', 'L12', 'B2', 'bct', 'hcp', 'fcc-prim', 'bcc-prim', 'ortho2', 'tet3']
+# lattice constants with few decimals (layer heights are then exact multiples of the rounding step `tol`, up to the
+# 1e-16 noise of the rotation) and the high-index planes on which many atoms share a layer
+DECIMAL_A = [4.05, 4.0, 3.52, 3.615, 2.8665, 5.43, 3.3, 2.95, 3.0, 4.08]
+HIGH_PLANES = [(2, 2, 1), (3, 1, 1), (3, 3, 1), (2, 1, 1), (2, 1, 0), (3, 2, 1), (3, 1, 0), (3, 2, 2)]
+# h^2 + k^2 + l^2 a perfect square: in a cubic cell the interplanar spacing is a RATIONAL multiple of a, so with a
+# decimal lattice constant the layer heights are exact multiples of the rounding step while the rotation (rows like
+# (2/3, 2/3, 1/3)) leaves 1e-16 noise on the atoms of one layer: grouping by floor instead of round splits layers
+SQUARE_PLANES = [(2, 2, 1), (2, 2, 1), (2, 2, 1), (3, 4, 0), (3, 4, 0), (2, 3, 6), (1, 4, 8), (4, 4, 7)]
+
+
+def _permuted(rng, hkl):
+    h = list(hkl)
+    rng.shuffle(h)
+    return tuple(x * rng.choice([1, 1, -1]) for x in h)
+
+
+def high_plane(rng, square=0.4, big=False):
+    """a high-index plane; with probability `square` one whose squared norm is a perfect square (`big`: also those
+    needing maxindex 6..8)."""
+    if rng.random() < square:
+        return _permuted(rng, rng.choice(SQUARE_PLANES if big else SQUARE_PLANES[:5]))
+    return _permuted(rng, rng.choice(HIGH_PLANES))
+
+
+def plane_cap(hkl3):
+    """largest explicit maxindex used for a plane: 3 (searches may then fail: a documented outcome), 8 for the
+    planes of SQUARE_PLANES so that their FreeSurface exists."""
+    return 8 if tuple(sorted(abs(x) for x in hkl3)) in {tuple(sorted(p)) for p in SQUARE_PLANES} else 3
+
+
+def pick_crystal(rng, i, off=0):
+    """crystal name for the i-th case: the literal prototypes in rotation, every third case a generated one- or
+    two-atom cell."""
+    if i % 3 == 2:
+        return gen_crystal_name(rng, 1 if rng.random() < 0.55 else 2)
+    return NAMES[(i + off) % len(NAMES)]
+
+
 def crystals(rng, exact):
     a, c = crystal_params(rng, exact)
-    return crystal_list(a, c, exact)
+    out = crystal_list(a, c, exact)
+    for n in (1, 1, 2, 2):
+        nm = gen_crystal_name(rng, n)
+        u, st = crystal_get(nm, a, c, exact)
+        out.append((nm, u, st))
+    return out
 
 
 def _numdec(tol):
@@ -743,15 +887,28 @@ def _fs_cases(ctx, exact):
     per = ctx.n(5, 40)
     for nm, ucell, st in cr:
         pls = rng.sample(small, per)
-        if nm == 'hcp':
+        if _is_hex(nm):
             pls = [(h, k, -(h + k), l) if i % 2 else (h, k, l) for i, (h, k, l) in enumerate(pls)]
         for hkl in pls:
             cases.append((nm, ucell, st, hkl, rng.choice(CUTS)))
         # planes that admit every cut vector in the cubic/tetragonal/orthorhombic cells
         for hkl in rng.sample([(1, 0, 0), (0, 1, 0), (0, 0, 1), (0, 0, -1), (1, 1, 0), (1, 1, 1), (0, 1, 1), (1, -1, 0)], 2):
-            if nm == 'hcp':
+            if _is_hex(nm):
                 hkl = (0, 0, 0, 1) if hkl[2] else (1, 0, -1, 0)
             cases.append((nm, ucell, st, hkl, rng.choice(('a', 'b'))))
+    if not exact:
+        # decimal lattice constants x high-index planes: many atoms per layer, layer heights on multiples of tol
+        a = rng.choice(DECIMAL_A)
+        c = round(a * rng.choice([1.6, 1.633, 1.5]), 3)
+        crd = crystal_list(a, c, False)
+        nm, ucell, st = rng.choice(crd[:1] + crd[2:4])            # fcc / diamond / L12
+        cases.append((nm, ucell, st, _permuted(rng, (2, 2, 1)), rng.choice(CUTS)))
+        for nm, ucell, st in rng.sample(crd, ctx.n(4, 11)):
+            for _ in range(ctx.n(1, 4)):
+                hkl = high_plane(rng)
+                if _is_hex(nm) and rng.random() < 0.5:
+                    hkl = (hkl[0], hkl[1], -(hkl[0] + hkl[1]), hkl[2])
+                cases.append((nm, ucell, st, hkl, rng.choice(('c', 'c', 'a', 'b'))))
     return cases
 
 
@@ -764,7 +921,7 @@ def _correspond_fs(ctx, exact):
     for nm, ucell, st, hkl, cut in _fs_cases(ctx, exact):
         tol = rng.choice([1e-7, 1e-8, 1e-6])
         hkl3 = hkl if len(hkl) == 3 else (hkl[0], hkl[1], hkl[3])
-        n = _capped(hkl3, st, 3)
+        n = _capped(hkl3, st, plane_cap(hkl3))
         info = {'op': 'FreeSurface', 'crystal': nm, 'a': float(ucell.box.a), 'c': float(ucell.box.c), 'exact': exact,
                 'hkl': list(hkl), 'cut': cut, 'setting': st, 'maxindex': n, 'tol': tol}
         vects = ucell.box.vects.tolist()
@@ -774,7 +931,7 @@ def _correspond_fs(ctx, exact):
         except (ValueError, AssertionError) as e:
             sf, impl_err = None, (_err_class(e), str(e))
         m = parse_fsb(ctx.driver.ask(fsb_line(vects, hkl, cut, n, st, None)))
-        ctx.stats.case('FreeSurface:' + nm, (nm, tuple(hkl), cut, st, exact, float(ucell.box.a)), nontrivial=sf is not None,
+        ctx.stats.case('FreeSurface:' + _kind(nm), (nm, tuple(hkl), cut, st, exact, float(ucell.box.a)), nontrivial=sf is not None,
                        sample=dict(info, refused=impl_err))
         if 'err' in m:
             if m['err'] == 'assert' and impl_err is None and not exact:
@@ -858,8 +1015,14 @@ def _correspond_fs(ctx, exact):
             nshift += 1
             ctx.stats.case('shifts', (nm, tuple(hkl), cut, st, exact, W), sample={'W': W, 'coords': xs[:12], 'shifts': got[:, ci].tolist()})
             other = [j for j in range(3) if j != ci]
+
+            def fold(v):
+                # a shift of a whole cell width is the shift 0 (the fold of `relshift` into [0, W] is decided by the
+                # last bit when a mid-layer point falls on the cell face): compare modulo W
+                return sorted(0.0 if min(abs(float(x)), abs(float(x) - W)) <= 1e-9 * W else float(x) for x in v)
             if got.ndim != 2 or got.shape[1] != 3 or len(want) != got.shape[0] or np.abs(got[:, other]).max() != 0.0 \
-                    or not cm.allclose(got[:, ci], want, 1e-12, 1e-9 * W):
+                    or not (cm.allclose(got[:, ci], want, 1e-12, 1e-9 * W)
+                            or cm.allclose(fold(got[:, ci]), fold(want), 1e-12, 1e-9 * W)):
                 ctx.disagree('FreeSurface:shifts', f'FreeSurface({hkl}, {nm}, cut={cut}).shifts {got.tolist()} vs model '
                              f'{[float(w) for w in want]} along the cut', dict(info, coords=xs, W=W))
                 continue
@@ -881,9 +1044,10 @@ def _correspond_fs(ctx, exact):
 def _correspond_surface(ctx, sf, info, ci, cut, W):
     import numpy as np
     rng = ctx.rng
-    inpl = lambda: rng.choice([1, 1, 2, 3, -2, (-1, 1), (0, 2)])
+    big = sf.rcell.natoms > 40
+    inpl = lambda: rng.choice([1, 1, 1, 2, -1, (0, 1)] if big else [1, 1, 2, 3, -2, (-1, 1), (0, 2)])
     sizemults = [inpl(), inpl(), inpl()]
-    sizemults[ci] = rng.choice([1, 1, 2, 3, -1, -2, 4])
+    sizemults[ci] = rng.choice([1, 1, 2, -1, -2] if big else [1, 1, 2, 3, -1, -2, 4])
     minwidth = rng.choice([None, None, rng.uniform(0.3, 4.5) * W, 2.0 * W])
     even = rng.random() < 0.4
     vac = rng.choice([None, None, 0.0, rng.uniform(0.5, 12.0), 8.0, -1.0 if rng.random() < 0.3 else 2.5])
@@ -1065,7 +1229,7 @@ def _ecls(e):
 def _hist_new(spec):
     import numpy as np
     from atomman.defect import StackingFault, FreeSurface
-    ucell, st = [(u, s_) for k, u, s_ in crystal_list(spec['a'], spec['c'], spec['exact']) if k == spec['crystal']][0]
+    ucell, st = crystal_get(spec['crystal'], spec['a'], spec['c'], spec['exact'])
     kw = dict(spec.get('ctor') or {})
     if kw.get('shift') is not None:
         kw['shift'] = np.array(kw['shift'], dtype=float)
@@ -1085,6 +1249,8 @@ def _kw_real(kw):
             out[k] = [tuple(m) if isinstance(m, (list, tuple)) else int(m) for m in v]
         elif k in ('shift', 'faultshift', 'a1vect_uvw', 'a2vect_uvw') and v is not None:
             out[k] = np.array(v, dtype=float)
+        elif v == 'np.True_' and isinstance(v, str):
+            out[k] = np.True_
         else:
             out[k] = v
     return out
@@ -1436,9 +1602,20 @@ def _gen_surface_kw(rng, sf, cls):
             sm[(ci + rng.choice([1, 2])) % 3] = [0, 0]      # (an int 0 is refused with C04's error classes)
         kw['sizemults'] = sm
     if rng.random() < 0.3:
-        kw['minwidth'] = rng.choice([rng.uniform(0.3, 3.5) * W, 2.0 * W])
-    if rng.random() < 0.3:
-        kw['even'] = True
+        r = rng.random()
+        if r < 0.45:
+            kw['minwidth'] = rng.uniform(0.3, 3.5) * W
+        elif r < 0.92 or sf.rcell.natoms > 4:
+            kw['minwidth'] = float(rng.randrange(1, 7)) * W          # exactly k cells
+        else:
+            # k cells for the k at which k (1/k) != 1 in double precision
+            kw['minwidth'] = float(rng.choice(TRAP_COUNTS[:4])) * W
+            kw['sizemults'] = [1 if i != ci else (kw.get('sizemults') or [1, 1, 1])[ci] for i in range(3)]
+    r = rng.random()
+    if r < 0.3:
+        kw['even'] = rng.choice([True, True, 1, 'np.True_'])         # (truthy non-bool flags count as True)
+    elif r < 0.36:
+        kw['even'] = rng.choice([False, 0])
     r = rng.random()
     if r < 0.3:
         kw['vacuumwidth'] = rng.choice([0.0, 4.0, rng.uniform(0.5, 9.0)])
@@ -1450,7 +1627,7 @@ def _gen_surface_kw(rng, sf, cls):
         if r < 0.55:
             pass
         elif r < 0.72:
-            kw['faultpos_rel'] = rng.choice([rng.randrange(0, 17) / 16, rng.uniform(0.05, 0.95)])
+            kw['faultpos_rel'] = rng.choice([rng.randrange(0, 17) / 16, rng.uniform(0.05, 0.95), 0.0, 1.0])
         elif r < 0.90:
             kw['faultpos_cart'] = o + rng.choice([rng.randrange(1, 32) / 32, rng.uniform(0.05, 0.95)]) * w
         elif r < 0.94:
@@ -1526,16 +1703,24 @@ def _gen_fault_kw(rng, sf):
     elif r < 0.95:
         pass
     else:
-        kw['faultshift'], kw['a1'] = [0.5, 0.0, 0.0], 0.5
+        # (refused whatever the values: 0.0 is a coefficient that was given)
+        kw['faultshift'] = [0.5, 0.0, 0.0]
+        kw[rng.choice(['a1', 'a1', 'a2', 'outofplane'])] = rng.choice([0.5, 0.0, 0.0])
     _gen_fpos(rng, sf, kw, 0.3)
     _gen_avect(rng, sf, kw, 0.12)
-    if rng.random() < 0.12 and not ('faultshift' in kw and 'a1' in kw):
+    if rng.random() < 0.12 and not ('faultshift' in kw and any(x in kw for x in ('a1', 'a2', 'outofplane'))):
         kw['minimum_r'] = rng.uniform(0.5, 3.2)      # (search only: the pair selection of the push is not in the model)
     return kw
 
 
-def _gen_op(rng, sf, cls, k):
+def _gen_op(rng, sf, cls, k, done=()):
     built = _priv(sf, 'FreeSurface', 'system') is not None
+    # the same request again, after whatever happened in between (a result memoised by its arguments would be stale
+    # after a moved plane / a rebuild, or scribbled over by the caller)
+    earlier = [o for o in done if o['op'] in ('fault', 'map') and 'minimum_r' not in (o.get('kw') or {})]
+    if cls == 'SF' and earlier and rng.random() < 0.12:
+        o = rng.choice(earlier)
+        return {'op': o['op'], 'kw': {kk: v for kk, v in o['kw'].items() if not kk.startswith('faultpos')}}
     if cls != 'SF':
         if rng.random() < 0.15:
             return {'op': 'set_shift', 'kw': {kk: v for kk, v in _gen_surface_kw(rng, sf, 'FS').items()
@@ -1555,10 +1740,22 @@ def _gen_op(rng, sf, cls, k):
         return {'op': 'fprel', 'value': kw.get('faultpos_rel', rng.randrange(0, 9) / 8)}
     if r < 0.87:
         kw = {}
+        s_ = _priv(sf, 'FreeSurface', 'system')
+        nat = 10 ** 9 if s_ is None else int(s_.natoms)
+
+        def count(lo):
+            # mostly tiny meshes; every count up to 12 incl. 0 (an empty map); on small systems any count up to 60 and
+            # the counts at which np.arange(0, 1, 1/k) is one element too long
+            r_ = rng.random()
+            if r_ < 0.55:
+                return rng.choice(lo)
+            if r_ < 0.85 or nat > 40:
+                return rng.randrange(0, 13) if nat <= 400 else rng.choice(lo)
+            return rng.choice(TRAP_COUNTS[:6]) if rng.random() < 0.4 else rng.randrange(13, 61)
         if rng.random() < 0.8:
-            kw['num_a1'] = rng.choice([1, 2, 3])
+            kw['num_a1'] = count([1, 2, 3])
         if rng.random() < 0.6:
-            kw['num_a2'] = rng.choice([1, 2])
+            kw['num_a2'] = count([1, 2]) if kw.get('num_a1', 1) <= 12 else rng.choice([1, 1, 2])
         if rng.random() < 0.25:
             kw['outofplane'] = 0.2
         _gen_fpos(rng, sf, kw, 0.25)
@@ -1570,19 +1767,23 @@ def _gen_op(rng, sf, cls, k):
 
 def _hist_specs(ctx, rng, count):
     specs = []
-    names = ['fcc', 'bcc', 'diamond', 'L12', 'B2', 'bct', 'hcp', 'fcc-prim', 'bcc-prim', 'ortho2', 'tet3']
     small = planes(2)
-    off = rng.randrange(len(names))
+    off = rng.randrange(len(NAMES))
     for i in range(count):
         exact = i % 4 == 0
         a, c = crystal_params(rng, exact)
-        nm = names[(i + off) % len(names)]
-        if rng.random() < 0.5:
+        nm = pick_crystal(rng, i, off)
+        if rng.random() < (0.7 if nm.startswith('g') else 0.5):
             hkl = rng.choice([(1, 0, 0), (0, 0, 1), (1, 1, 0), (1, 1, 1), (0, 1, 1), (1, -1, 0), (0, 0, -1), (2, 1, 0)])
         else:
             hkl = rng.choice(small)
         cut = rng.choice(('c', 'c', 'a', 'b'))
-        if nm == 'hcp' and rng.random() < 0.6:
+        hkl = layer_plane(rng, nm, hkl)
+        if i % 8 == 5 and not nm.startswith('g') and nm != 'diamond':
+            exact, a = False, rng.choice(DECIMAL_A)
+            c = round(a * rng.choice([1.6, 1.633, 1.5]), 3)
+            hkl = high_plane(rng)
+        if _is_hex(nm) and rng.random() < 0.6:
             hkl = (hkl[0], hkl[1], -(hkl[0] + hkl[1]), hkl[2])
         st = {'fcc-prim': 'f', 'bcc-prim': 'i'}.get(nm, 'p')
         hkl3 = hkl if len(hkl) == 3 else (hkl[0], hkl[1], hkl[3])
@@ -1591,7 +1792,7 @@ def _hist_specs(ctx, rng, count):
         if r < 0.25:
             ctor['shiftindex'] = rng.choice([0, 1, -1])
         specs.append({'op': 'hist', 'crystal': nm, 'a': a, 'c': c, 'exact': exact, 'hkl': list(hkl), 'cut': cut,
-                      'tol': rng.choice([1e-7, 1e-8, 1e-6]), 'maxindex': _capped(hkl3, st, 3),
+                      'tol': rng.choice([1e-7, 1e-8, 1e-6]), 'maxindex': _capped(hkl3, st, plane_cap(hkl3)),
                       'cls': 'SF' if rng.random() < 0.8 else 'FS', 'ctor': ctor, 'hseed': rng.randrange(1 << 30),
                       'nops': rng.randrange(5, 10)})
     return specs
@@ -1881,7 +2082,7 @@ def run_history(ctx, spec, mode, ops=None, report=True):
     nops = len(ops) if ops is not None else spec['nops']
     built_vac = None
     for k in range(nops):
-        op = ops[k] if ops is not None else _gen_op(rng, sf, cls, k)
+        op = ops[k] if ops is not None else _gen_op(rng, sf, cls, k, done)
         if mode == 'model' and 'minimum_r' in (op.get('kw') or {}):
             op = dict(op, kw={kk: v for kk, v in op['kw'].items() if kk != 'minimum_r'})
         done.append(op)
@@ -1960,6 +2161,8 @@ def run_history(ctx, spec, mode, ops=None, report=True):
         system = fs['system']
         P = np.asarray(system.atoms.pos, dtype=float)
         fp = sh.plane(sf)
+        if fp is None:
+            continue                      # (an empty iterfaultmap on an object without a fault plane: nothing returned)
         above = P[:, ci] > fp
         near = _near_plane(P, ci, fp, W)
         U = _prim_uvws(sf, st)
@@ -2033,6 +2236,21 @@ def run_history(ctx, spec, mode, ops=None, report=True):
                                             for x, y in zip(items, fitems)):
             bad('fresh', f'{_show_op(op)} returns different positions on a new object given the same final arguments')
             break
+        # what fault() returns is the caller's: no memory shared with the stored system or with another result, and
+        # scribbling over it changes neither the object nor later results
+        stored = _priv(sf, 'FreeSurface', 'system')
+        arrs = [np.asarray(x[2].atoms.pos) for x in items[:8]]
+        if any(np.shares_memory(a_, stored.atoms.pos) for a_ in arrs) or \
+                any(np.shares_memory(arrs[i], arrs[j]) for i in range(len(arrs)) for j in range(i)):
+            bad('alias', f'{_show_op(op)}: a returned configuration shares memory with the stored system / another result')
+            break
+        for a_ in arrs:
+            if a_.flags.writeable:
+                a_ += 7.25
+        d = _same_system(stored, fs['system'])
+        if d:
+            bad('alias', f'{_show_op(op)}: writing into the returned configuration changed the stored system: {d}')
+            break
     return failed, done
 
 
@@ -2055,7 +2273,125 @@ def _viol(ctx, key, what, rep, cap=3):
         ctx.violate(key, what, rep)
 
 
+# ---- directed histories: counts, thresholds, smallest and large sizes -----------------------------------------
+# natoms = 2^k - 1, 2^k, 2^k + 1 exactly, as (in-plane, in-plane, cut) multipliers of a ONE-atom rotated cell
+BIG_SIZES = [(1023, [3, 11, 31]), (1024, [8, 8, 16]), (1025, [5, 5, 41]), (2047, [23, 1, 89]), (2048, [8, 16, 16]),
+             (2049, [3, 1, 683]), (4095, [39, 35, 3]), (4096, [16, 16, 16]), (4097, [17, 1, 241]),
+             (8191, [1, 1, 8191]), (8193, [3, 1, 2731]), (65535, [15, 17, 257]), (65536, [16, 16, 256]),
+             (65537, [1, 1, 65537])]
+
+
+def _map_counts(ctx):
+    """iterfaultmap counts of this run: thorough every count 0..60 and every trap count (k with np.arange(0, 1, 1/k)
+    one element too long / k (1/k) != 1); quick a fifth of 0..60 and two trap counts, rotating with the seed."""
+    if ctx.thorough:
+        return list(range(0, 61)) + TRAP_COUNTS
+    k = ctx.seed % 5
+    t = (2 * ctx.seed) % len(TRAP_COUNTS)
+    return [n for n in range(0, 61) if n % 5 == k] + [TRAP_COUNTS[t], TRAP_COUNTS[t + 1]]
+
+
+def _directed(ctx, mode):
+    """[(spec, ops)]: (1) iterfaultmap with every count of `_map_counts` on tiny systems, along a1 / a2 / both;
+    (2) systems of exactly 2^k - 1, 2^k, 2^k + 1 atoms (one-atom cell at an arbitrary position) with fault() twice,
+    iterfaultmap and a moved plane (model mode: the sizes up to 4097 only; quick: a rotating choice); (3) the smallest systems: one atom, one
+    layer, two atoms."""
+    rng = random.Random(ctx.seed * 6151 + (17 if mode == 'model' else 18))
+    out = []
+
+    def spec(nm, hkl, cut, exact=False, cls='SF', a=None, c=None):
+        a_, c_ = crystal_params(rng, exact)
+        st = {'fcc-prim': 'f', 'bcc-prim': 'i'}.get(nm, 'p')
+        hkl3 = hkl if len(hkl) == 3 else (hkl[0], hkl[1], hkl[3])
+        return {'op': 'hist', 'crystal': nm, 'a': a or a_, 'c': c or c_, 'exact': exact, 'hkl': list(hkl), 'cut': cut,
+                'tol': rng.choice([1e-7, 1e-8, 1e-6]), 'maxindex': _capped(hkl3, st, plane_cap(hkl3)), 'cls': cls, 'ctor': {},
+                'hseed': rng.randrange(1 << 30), 'nops': 0}
+    # (1) map counts
+    tiny = [('fcc-prim', (1, 1, 1), 'c'), ('bcc', (1, 1, 0), 'b'), ('hcp', (0, 0, 0, 1), 'c'), ('B2', (1, 0, 0), 'a'),
+            ('g1:ort:0.25,0.5,0.5,1', (0, 0, 1), 'c'), ('g2:tet:0.5,0.5,0.5,1;0.125,0.5,0.75,2', (0, 1, 0), 'b')]
+    counts = _map_counts(ctx)
+    rng.shuffle(counts)
+    for j in range(0, len(counts), 4):
+        nm, hkl, cut = tiny[(j // 4 + ctx.seed) % len(tiny)]
+        ci = 'abc'.index(cut)
+        sm = [1, 1, 1]
+        sm[ci] = 2
+        ops = [{'op': 'surface', 'kw': {'sizemults': sm}}]
+        for n in counts[j:j + 4]:
+            r = rng.random()
+            if n > 60 or r < 0.4:
+                kw = {'num_a1': n} if rng.random() < 0.5 else {'num_a2': n}
+            elif r < 0.8:
+                kw = {'num_a1': n, 'num_a2': rng.choice([1, 2, 3])} if rng.random() < 0.5 else \
+                    {'num_a1': rng.choice([1, 2, 3]), 'num_a2': n}
+            else:
+                kw = {'num_a1': n, 'num_a2': n} if n <= 12 else {'num_a2': n, 'outofplane': 0.25}
+            ops.append({'op': 'map', 'kw': kw})
+        out.append((spec(nm, hkl, cut, exact=(j // 4) % 2 == 0), ops))
+    # (2) large systems
+    small_sizes = [b for b in BIG_SIZES if b[0] <= 4097]
+    large_sizes = [b for b in BIG_SIZES if b[0] > 8193]
+    if mode == 'model':
+        pick = small_sizes if ctx.thorough else [small_sizes[ctx.seed % 9], small_sizes[(ctx.seed + 4) % 9]]
+    elif ctx.thorough:
+        pick = list(BIG_SIZES)
+    else:
+        pick = [b for b in BIG_SIZES if b[0] <= 8193] + [large_sizes[ctx.seed % len(large_sizes)]]
+    for n, (m1, m2, mc) in pick:
+        fam = rng.choice(['cub', 'tet', 'ort', 'obc'])
+        pos = rng.choice([[0.5, 0.5, 0.5], [0.25, 0.5, 0.125], [0.0, 0.0, 0.0], [round(rng.uniform(0.05, 0.95), 3) for _ in range(3)]])
+        nm = 'g1:%s:%s,1' % (fam, ','.join(repr(float(x)) for x in pos))
+        hkl, cut = rng.choice([((0, 0, 1), 'c'), ((1, 0, 0), 'a'), ((0, 1, 0), 'b'), ((0, 0, -1), 'c')])
+        ci = 'abc'.index(cut)
+        sm = [0, 0, 0]
+        sm[ci], sm[(ci + 1) % 3], sm[(ci + 2) % 3] = mc, m1, m2
+        if rng.random() < 0.3:
+            sm[(ci + 1) % 3] = [-(m1 // 2), m1 - m1 // 2]
+        j1, j2 = mc // 2, max(1, mc // 3)
+        ops = [{'op': 'surface', 'kw': {'sizemults': sm, 'faultpos_rel': j1 / mc}},
+               {'op': 'fault', 'kw': {'a1': 0.5, 'a2': 0.25}},
+               {'op': 'fault', 'kw': {'a1': 1.0, 'outofplane': 0.125}},
+               {'op': 'map', 'kw': {'num_a1': 2}},
+               {'op': 'fprel', 'value': j2 / mc},
+               {'op': 'fault', 'kw': {'a2': -0.5}}]
+        out.append((spec(nm, hkl, cut, exact=rng.random() < 0.5), ops))
+    # (3) smallest systems: one atom in all; one layer; two atoms
+    for nm, hkl, cut, sm in [('g1:cub:0.5,0.5,0.5,1', (0, 0, 1), 'c', [1, 1, 1]), ('g1:ort:0.3,0.5,0.625,1', (1, 0, 0), 'a', [1, 1, 1]),
+                             ('g1:tet:0.5,0.5,0.5,1', (0, 1, 0), 'b', [1, 2, 1]), ('g2:obc:0.5,0.25,0.5,1;0.0,0.25,0.875,2', (0, 1, 0), 'b', [1, 1, 1]),
+                             ('g1:hex:0.5,0.5,0.5,1', (0, 0, 0, 1), 'c', [1, 1, 2])][ctx.seed % 2::(1 if ctx.thorough else 2)]:
+        ops = [{'op': 'surface', 'kw': {'sizemults': list(sm)}},
+               {'op': 'fault', 'kw': {'a1': 0.5}},
+               {'op': 'fprel', 'value': 0.0},
+               {'op': 'fault', 'kw': {'a1': 0.25, 'a2': 0.5}},
+               {'op': 'map', 'kw': {'num_a1': 3, 'num_a2': 1}},
+               {'op': 'surface', 'kw': {'shiftindex': 0, 'minwidth': 1.0, 'even': 1}},
+               {'op': 'fault', 'kw': {'a2': 1.0, 'outofplane': 0.0}},
+               {'op': 'surface', 'kw': {'sizemults': list(sm), 'faultpos_rel': 0.0}},
+               {'op': 'fault', 'kw': {'a1': 0.5, 'a2': 0.0}}]
+        out.append((spec(nm, hkl, cut, exact=True), ops))
+    return out
+
+
+def _run_directed(ctx, mode):
+    nf = nops = 0
+    cases = _directed(ctx, mode)
+    for spec, ops in cases:
+        try:
+            f, done = run_history(ctx, spec, mode, ops=ops)
+        except cm.InfraError:
+            raise
+        except Exception as e:  # noqa
+            (ctx.disagree if mode == 'model' else ctx.violate)('hist:exception', f'{spec}: {type(e).__name__}: {e}',
+                                                                dict(spec, ops=ops))
+            f, done = ['exception'], []
+        nf += bool(f)
+        nops += len(done)
+    ctx.extra['histories_directed_' + mode] = {'objects': len(cases), 'calls': nops, 'failed': nf,
+                                               'map_counts': sorted(_map_counts(ctx))}
+
+
 def _correspond_histories(ctx):
+    _run_directed(ctx, 'model')
     rng = random.Random(ctx.seed * 104729 + 1414)
     specs = _hist_specs(ctx, rng, ctx.n(160, 800))
     nf = nops = 0
@@ -2073,6 +2409,7 @@ def _correspond_histories(ctx):
 
 
 def _search_histories(ctx, broken):
+    _run_directed(ctx, 'oracle')
     rng = random.Random(ctx.seed * 15485863 + 1415)
     specs = _hist_specs(ctx, rng, ctx.n(240, 1200) * (2 if broken else 1))
     nf = nops = 0
@@ -2255,7 +2592,7 @@ def o_free_surface(ctx, spec, report=True):
     from atomman.defect import StackingFault
     nm, a, c, exact = spec['crystal'], spec['a'], spec['c'], spec['exact']
     hkl, cut, tol, n = spec['hkl'], spec['cut'], spec['tol'], spec['maxindex']
-    ucell, st = [(u, s_) for k, u, s_ in crystal_list(a, c, exact) if k == nm][0]
+    ucell, st = crystal_get(nm, a, c, exact)
     rng = random.Random(spec['seed'])
     failed = []
     rep = dict(spec, op='o_fs')
@@ -2309,14 +2646,36 @@ def o_free_surface(ctx, spec, report=True):
     if nsh == 0:
         bad('shifts', 'no termination shift offered')
         return failed
-    # ---- every offered shift (up to 6), random multipliers / minwidth / even / vacuum ------------------------
+    # ---- EVERY offered shift, judged on the rotated cell alone: after the shift the cut (the cell face, 0 = W modulo
+    # the cell width) lies strictly between two atomic planes, midway between them
+    xr = np.asarray(sf.rcell.atoms.pos, dtype=float)[:, ci] - float(rbox.origin[ci])
+    for si in range(nsh):
+        sh_ = np.asarray(sf.shifts[si], dtype=float)
+        y = np.mod(xr + float(sh_[ci]), W)
+        y = np.where(W - y < 1e-12 * W, 0.0, y)       # (an atom a rounding error below the cut is ON it)
+        up, dn = float(y.min()), float(W - y.max())
+        if up <= 10 * tol or dn <= 10 * tol:
+            bad('between-planes', f'offered shift #{si} of {nsh} ({sh_.tolist()}): an atom of the rotated cell lies '
+                f'{min(up, dn):.3e} from the cut (atomic planes at {np.unique(np.round(np.mod(xr, W), 6))[:8].tolist()}..., '
+                f'cell width {W})')
+            return failed
+        if abs(up - dn) > 1e-6 * W:
+            bad('between-planes', f'offered shift #{si} of {nsh} ({sh_.tolist()}): the cut is not midway between the planes '
+                f'it separates ({up} above, {dn} below)')
+            return failed
+    # ---- offered shifts (up to 6) built, random multipliers / minwidth / even / vacuum ---------------------------
     idxs = list(range(nsh)) if nsh <= 6 else sorted(rng.sample(range(nsh), 6))
     system = None
+    small = int(sf.rcell.natoms) <= 4
     for si in idxs:
         sizemults = [rng.choice([1, 1, 2, -2, (-1, 1)]) for _ in range(3)]
-        sizemults[ci] = rng.choice([1, 2, 3, -1, -2])
-        minwidth = rng.choice([None, None, rng.uniform(0.5, 3.5) * W])
-        even = rng.random() < 0.4
+        sizemults[ci] = rng.choice([1, 2, 3, -1, -2, 5, -3])
+        minwidth = rng.choice([None, None, rng.uniform(0.5, 3.5) * W, rng.randrange(1, 7) * W])
+        if small and rng.random() < 0.12:
+            # counts at which k (1/k) != 1 / np.arange(0, 1, 1/k) is one element too long, as a multiple of the cell width
+            minwidth = rng.choice(TRAP_COUNTS[:6]) * W
+            sizemults = [1 if i != ci else sizemults[ci] for i in range(3)]
+        even = rng.choice([True, True, 1, np.True_]) if rng.random() < 0.4 else rng.choice([False, False, 0])
         vac = rng.choice([None, None, rng.uniform(0.5, 9.0), 4.0])
         kw = dict(shiftindex=si, sizemults=list(sizemults), minwidth=minwidth, even=even, vacuumwidth=vac)
         system = sf.surface(**kw)
@@ -2332,8 +2691,12 @@ def o_free_surface(ctx, spec, report=True):
         if mcut < mabs[ci] or (minwidth is not None and mcut * W < minwidth * (1 - 1e-12)) or (even and mcut % 2):
             bad('multiplier', f'{tag}: {mcut} cells along the cut (requested {sizemults[ci]}, minwidth {minwidth}, '
                 f'even {even}, cell width {W})')
-        if mcut > max(mabs[ci], 1 if minwidth is None else math.ceil(minwidth / W - 1e-12)) + (1 if even else 0):
-            bad('multiplier', f'{tag}: {mcut} cells along the cut is more than asked for')
+        # (exact: a correctly rounded minwidth / W never exceeds the integer the exact quotient stays below)
+        target = max(mabs[ci], 1 if minwidth is None else int(math.ceil(F(float(minwidth)) / F(W))))
+        if even and target % 2:
+            target += 1
+        if mcut > target:
+            bad('multiplier', f'{tag}: {mcut} cells along the cut is more than asked for ({target})')
         want = int(sf.rcell.natoms) * mabs[(ci + 1) % 3] * mabs[(ci + 2) % 3] * mcut
         if system.natoms != want:
             bad('same-crystal', f'{tag}: {system.natoms} atoms, expected {want}')
@@ -2469,23 +2832,49 @@ def o_free_surface(ctx, spec, report=True):
 def _fs_specs(ctx, rng, count):
     specs = []
     small = planes(2)
-    names = ['fcc', 'bcc', 'diamond', 'L12', 'B2', 'bct', 'hcp', 'fcc-prim', 'bcc-prim', 'ortho2', 'tet3']
     for i in range(count):
         exact = i % 3 == 0
         a, c = crystal_params(rng, exact)
-        nm = names[(i + rng.randrange(3)) % len(names)]
+        nm = pick_crystal(rng, i, rng.randrange(3))
         hkl = rng.choice(small)
-        if rng.random() < 0.35:
+        if rng.random() < (0.6 if nm.startswith('g') else 0.35):
             hkl = rng.choice([(1, 0, 0), (0, 1, 0), (0, 0, 1), (0, 0, -1), (1, 1, 0), (1, 1, 1), (0, 1, 1), (1, -1, 0)])
             cut = rng.choice(CUTS)
         else:
             cut = rng.choice(('c', 'c', 'a', 'b'))
-        if nm == 'hcp' and rng.random() < 0.5:
+        if i % 4 == 1 and not nm.startswith('g'):
+            # decimal lattice constants x high-index planes (layer heights on multiples of the rounding step)
+            exact, a = False, rng.choice(DECIMAL_A)
+            c = round(a * rng.choice([1.6, 1.633, 1.5]), 3)
+            hkl = high_plane(rng, big=nm in ('fcc', 'L12', 'bcc', 'B2'))
+        hkl = layer_plane(rng, nm, hkl)
+        if i < 4:
+            # every run: face-centred cubic family x decimal a x a plane with rational interplanar spacing
+            nm = ['fcc', 'L12', 'diamond', 'fcc'][i]
+            exact, a = False, rng.choice(DECIMAL_A)
+            c = round(a * 1.6, 3)
+            hkl = _permuted(rng, [(2, 2, 1), (2, 2, 1), (2, 2, 1), (3, 4, 0)][i])
+            cut = rng.choice(CUTS)
+        elif i == 7 or (i == 8 and ctx.thorough):
+            # every run: a rotated cell of more than 256 (thorough: 512) atoms, hundreds of layers
+            nm, hkl = [('fcc', (1, 4, 8)), ('L12', (4, 4, 7)), ('diamond', (2, 3, 6))][rng.randrange(3)] if i == 7 else \
+                ('diamond', (1, 4, 8))
+            exact, a = False, rng.choice(DECIMAL_A + [3.6149, 4.0495])
+            c = round(a * 1.6, 3)
+            hkl = _permuted(rng, hkl)
+            cut = rng.choice(CUTS)
+        elif i < 7:
+            # every run: the smallest rotated cells - two atoms in ONE layer, one atom anywhere in the cell
+            nm = gen_crystal_name(rng, 2 if i < 6 else 1, fam=rng.choice(['cub', 'tet', 'ort', 'obc']), share=True)
+            k = shared_axis(nm)
+            hkl = tuple(rng.choice([1, -1]) if j == k else 0 for j in range(3))
+            cut = rng.choice(CUTS)
+        if _is_hex(nm) and rng.random() < 0.5:
             hkl = (hkl[0], hkl[1], -(hkl[0] + hkl[1]), hkl[2])
         st = {'fcc-prim': 'f', 'bcc-prim': 'i'}.get(nm, 'p')
         hkl3 = hkl if len(hkl) == 3 else (hkl[0], hkl[1], hkl[3])
         specs.append({'crystal': nm, 'a': a, 'c': c, 'exact': exact, 'hkl': list(hkl), 'cut': cut,
-                      'tol': rng.choice([1e-7, 1e-8, 1e-6]), 'maxindex': _capped(hkl3, st, 3),
+                      'tol': rng.choice([1e-7, 1e-8, 1e-6]), 'maxindex': _capped(hkl3, st, plane_cap(hkl3)),
                       'seed': rng.randrange(1 << 30)})
     return specs
 
@@ -2552,7 +2941,7 @@ def search(ctx, broken):
     specs = _fs_specs(ctx, rng, ctx.n(36, 400) * (2 if broken else 1))
     nf = nsys = 0
     for spec in specs:
-        ctx.stats.case('oracle:FreeSurface:' + spec['crystal'],
+        ctx.stats.case('oracle:FreeSurface:' + _kind(spec['crystal']),
                        (spec['crystal'], spec['a'], spec['c'], tuple(spec['hkl']), spec['cut'], spec['seed']))
         try:
             f = o_free_surface(ctx, spec)
@@ -2614,7 +3003,10 @@ MANIFEST = {
             'ones, the mask of the stored system at the stored plane, so fault() always satisfies the two clauses for the '
             'current system and plane; an accepted surface() call forgets the past (same results as a new object with the '
             'same final arguments), its default plane is the middle of the new system; inserting vacuum keeps atoms, pbc '
-            'and in-plane cell vectors, the relative coordinate across the cut becomes (s w + vac/2)/(w + vac). The model is '
+            'and in-plane cell vectors, the relative coordinate across the cut becomes (s w + vac/2)/(w + vac). '
+            'iterfaultmap(n1, n2) visits exactly the n1 n2 points (i/n1, j/n2), all in [0,1)x[0,1), pairwise distinct, one '
+            'configuration each, for every pair of counts; a rotated cell with a single layer at any height gets exactly '
+            'one shift, which puts the layer half a cell width from the cut. The model is '
             'tied to the code by an exhaustive differential run over planes x families x cuts x settings and over '
             'built surface / fault systems and over histories of calls on single objects.',
     'note': 'Trusted: Lean kernel + propext/Classical.choice/Quot.sound; numpy; isclose/arccos comparisons modelled as '
